@@ -583,7 +583,7 @@ func (c *converter) sliceAssignmentString(name string, index string, value strin
 }
 
 func (c *converter) sliceEvaluationString(name string, index string) string {
-	return fmt.Sprintf(`$(eval "echo \${%s[%s]}")`, name, index)
+	return fmt.Sprintf(`$(eval "echo \"\${%s[%s]}\"")`, name, index)
 }
 
 func (c *converter) sliceLenString(name string) string {
